@@ -19,6 +19,7 @@ import (
 	"verifharness/internal/h"
 
 	"github.com/dominant-strategies/go-quai/common"
+	"github.com/dominant-strategies/go-quai/core/rawdb"
 	"github.com/dominant-strategies/go-quai/core/types"
 	"github.com/dominant-strategies/go-quai/params"
 	"github.com/dominant-strategies/go-quai/ethdb"
@@ -356,6 +357,7 @@ func runC07(seed uint64, n int, outDir string, replay string) {
 				panic(err)
 			}
 			defer safeStop(w.node)
+			w.adversarialQi = c%2 == 0
 			for b := 0; b < blocksPerCase; b++ {
 				st, err := w.build()
 				if err != nil {
@@ -365,6 +367,7 @@ func runC07(seed uint64, n int, outDir string, replay string) {
 					return
 				}
 				num := st.blk.NumberU64(common.ZONE_CTX)
+				c07OwnBlockOracles(o, w, st.blk)
 				// mutants first (the genuine block is appended afterwards on the untouched head)
 				if rc.Chance(35) {
 					perm := rc.Intn(len(c07Mutations))
@@ -422,9 +425,14 @@ func runC07(seed uint64, n int, outDir string, replay string) {
 				if err := w.commit(st); err != nil {
 					ans("reject")
 					o.Violate("c07-own-block-rejected", fmt.Sprintf("block %d (%d txs, %d inbound ETXs handed over with its parent chain): %v", num, len(st.blk.Transactions()), len(st.inbound), err))
+					if strings.Contains(err.Error(), "receipt root") && len(st.blk.OutboundEtxs()) > 1 {
+						// the receipts commit to the outbound ETXs recorded per transaction: assembler and validator recorded different ones
+						o.Violate("c05-recorded-outbound-etxs-disagree", fmt.Sprintf("block %d emits %d ETXs; the receipts its assembler committed to (which list each transaction's outbound ETXs) are not the ones its validator derives: %v", num, len(st.blk.OutboundEtxs()), err))
+					}
 					return
 				}
 				ans("accept")
+				c05ReceiptOracle(o, w, st.blk)
 				ne := 0
 				for _, tx := range st.blk.Transactions() {
 					if tx.Type() == types.ExternalTxType {
@@ -441,4 +449,59 @@ func runC07(seed uint64, n int, outDir string, replay string) {
 	}
 	_ = bytes.Equal
 	o.Close(nil)
+}
+
+
+// c07OwnBlockOracles: properties of a block the node assembled from its own pool that can be read off the block
+// itself, whatever its validator later says
+func c07OwnBlockOracles(o *h.Out, w *cwWorld, blk *types.WorkObject) {
+	num := blk.NumberU64(common.ZONE_CTX)
+	// C01: no output is consumed twice - inside one transaction or by two transactions of the block
+	seen := map[types.OutPoint]common.Hash{}
+	for _, tx := range blk.Transactions() {
+		if tx.Type() != types.QiTxType {
+			continue
+		}
+		for _, in := range tx.TxIn() {
+			if prev, ok := seen[in.PreviousOutPoint]; ok {
+				o.Violate("c01-own-block-spends-output-twice", fmt.Sprintf("block %d assembled by the node's worker consumes outpoint %x:%d twice (transactions %x and %x)", num, in.PreviousOutPoint.TxHash.Bytes()[:6], in.PreviousOutPoint.Index, prev.Bytes()[:6], tx.Hash().Bytes()[:6]))
+			}
+			seen[in.PreviousOutPoint] = tx.Hash()
+		}
+	}
+}
+
+
+// c05ReceiptOracle: the outbound ETXs recorded for each transaction (its receipt) are the ones that transaction
+// emitted - they carry its hash as origin - and, in order, they are exactly the non-reward ETXs the block commits to
+func c05ReceiptOracle(o *h.Out, w *cwWorld, blk *types.WorkObject) {
+	num := blk.NumberU64(common.ZONE_CTX)
+	rs := rawdb.ReadReceipts(w.node.db, blk.Hash(), num, w.node.sl.Config())
+	if len(rs) != len(blk.Transactions()) {
+		return
+	}
+	var fromReceipts []*types.Transaction
+	for i, r := range rs {
+		tx := blk.Transactions()[i]
+		for _, e := range r.OutboundEtxs {
+			if tx.Type() != types.ExternalTxType && e.OriginatingTxHash() != tx.Hash() {
+				o.Violate("c05-receipt-lists-foreign-etx", fmt.Sprintf("block %d: the receipt of transaction %d (%x) lists an outbound ETX whose origin is %x", num, i, tx.Hash().Bytes()[:6], e.OriginatingTxHash().Bytes()[:6]))
+			}
+			fromReceipts = append(fromReceipts, e)
+		}
+		if len(r.OutboundEtxs) > 0 {
+			o.Count("receipt-with-outbound-etxs")
+		}
+	}
+	committed := blk.OutboundEtxs()
+	if len(fromReceipts) > len(committed) {
+		o.Violate("c05-receipts-list-more-etxs-than-block", fmt.Sprintf("block %d: receipts list %d outbound ETXs, the block commits to %d", num, len(fromReceipts), len(committed)))
+		return
+	}
+	for i, e := range fromReceipts {
+		if e.Hash() != committed[i].Hash() {
+			o.Violate("c05-receipt-etxs-differ-from-committed", fmt.Sprintf("block %d: outbound ETX %d recorded in the receipts (%x, value %s) is not the one the block commits to (%x, value %s)", num, i, e.Hash().Bytes()[:6], e.Value(), committed[i].Hash().Bytes()[:6], committed[i].Value()))
+			return
+		}
+	}
 }
